@@ -68,7 +68,9 @@ def gen_case(rng):
         if not circular and first + ncore > n_genes:
             continue
         # defining genes: a subset of the core genes gets the CORE function for this product
-        defs = sorted(set(rng.choice(core_genes) for _ in range(rng.randrange(1, 3))))
+        # (a sideloaded protocluster, as --sideload adds them, never has any)
+        sideloaded = rng.random() < 0.15
+        defs = [] if sideloaded else sorted(set(rng.choice(core_genes) for _ in range(rng.randrange(1, 3))))
         for d in defs:
             genes[d]["core"].append(product)
         core_start = first * step + 10
@@ -82,7 +84,7 @@ def gen_case(rng):
         else:
             core = [(core_start, core_start + core_len)]
             extent = [(max(0, core_start - nb_len), min(length, core_start + core_len + nb_len))]
-        protos.append({"first": first, "ncore": ncore, "nb": nb, "product": product,
+        protos.append({"first": first, "ncore": ncore, "nb": nb, "product": product, "sideloaded": sideloaded,
                        "core": [list(c) for c in core], "extent": [list(e) for e in extent]})
     return {"L": length, "circular": circular, "genes": genes, "protoclusters": protos}
 
@@ -94,7 +96,8 @@ def build(case, order):
     protos = {}
     for idx in order:
         p = case["protoclusters"][idx]
-        proto = W.make_protocluster(p["core"], p["extent"], p["product"], cutoff=10, neighbourhood=p["nb"] * 100)
+        proto = W.make_protocluster(p["core"], p["extent"], p["product"], cutoff=10, neighbourhood=p["nb"] * 100,
+                                    sideloaded=p.get("sideloaded", False))
         record.add_protocluster(proto)
         protos[p["product"]] = proto
     record.create_candidate_clusters()
